@@ -284,6 +284,8 @@ void StrandCase(Ctx& ctx, int base_kind, bool over_strand) {
   if (drainer != nullptr) {
     draining.store(false, kRlx);
     drainer->join();
+  }
+  if (base_kind == bManual) {
     while (static_cast<yaclib::ManualExecutor&>(*manual).Drain() != 0) {
     }
   }
